@@ -163,8 +163,14 @@ impl<M: Manager> UnreadyObject<'_, M> {
 impl<M: Manager> Drop for UnreadyObject<'_, M> {
     fn drop(&mut self) {
         if let Some(mut inner) = self.inner.take() {
+            #[cfg(deadpool_verif)]
+            crate::verif::point("unready.drop");
             self.pool.slots.lock().unwrap().size -= 1;
+            #[cfg(deadpool_verif)]
+            crate::verif::point("unready.sized");
             self.pool.manager.detach(&mut inner.obj);
+            #[cfg(deadpool_verif)]
+            crate::verif::point("unready.detached");
         }
     }
 }
@@ -184,6 +190,8 @@ impl<M: Manager> Object<M> {
     #[must_use]
     pub fn take(mut this: Self) -> M::Type {
         let mut inner = this.inner.take().unwrap().obj;
+        #[cfg(deadpool_verif)]
+        crate::verif::point("take.enter");
         if let Some(pool) = Object::pool(&this) {
             pool.inner.detach_object(&mut inner)
         }
@@ -323,6 +331,8 @@ impl<M: Manager, W: From<Object<M>>> Pool<M, W> {
         let users_guard = DropGuard(|| {
             let _ = self.inner.users.fetch_sub(1, Ordering::Relaxed);
         });
+        #[cfg(deadpool_verif)]
+        crate::verif::point("get.enter");
 
         let non_blocking = match timeouts.wait {
             Some(t) => t.as_nanos() == 0,
@@ -350,11 +360,15 @@ impl<M: Manager, W: From<Object<M>>> Pool<M, W> {
             .await?
         };
 
+        #[cfg(deadpool_verif)]
+        crate::verif::point("get.permit");
         let inner_obj = loop {
             let inner_obj = match self.inner.config.queue_mode {
                 QueueMode::Fifo => self.inner.slots.lock().unwrap().vec.pop_front(),
                 QueueMode::Lifo => self.inner.slots.lock().unwrap().vec.pop_back(),
             };
+            #[cfg(deadpool_verif)]
+            crate::verif::point("get.popped");
             let inner_obj = if let Some(inner_obj) = inner_obj {
                 self.try_recycle(timeouts, inner_obj).await?
             } else {
@@ -365,8 +379,14 @@ impl<M: Manager, W: From<Object<M>>> Pool<M, W> {
             }
         };
 
+        #[cfg(deadpool_verif)]
+        crate::verif::point("get.ready");
         users_guard.disarm();
+        #[cfg(deadpool_verif)]
+        crate::verif::point("get.disarmed");
         permit.forget();
+        #[cfg(deadpool_verif)]
+        crate::verif::point("get.forgot");
 
         Ok(Object {
             inner: Some(inner_obj),
@@ -439,7 +459,11 @@ impl<M: Manager, W: From<Object<M>>> Pool<M, W> {
             pool: &self.inner,
         };
 
+        #[cfg(deadpool_verif)]
+        crate::verif::point("create.made");
         self.inner.slots.lock().unwrap().size += 1;
+        #[cfg(deadpool_verif)]
+        crate::verif::point("create.sized");
 
         // Apply post_create hooks
         if let Err(e) = self
@@ -463,9 +487,13 @@ impl<M: Manager, W: From<Object<M>>> Pool<M, W> {
      * always reports a `max_size` of 0 for closed pools.
      */
     pub fn resize(&self, max_size: usize) {
+        #[cfg(deadpool_verif)]
+        crate::verif::point("resize.enter");
         if self.inner.semaphore.is_closed() {
             return;
         }
+        #[cfg(deadpool_verif)]
+        crate::verif::point("resize.checked");
         let mut slots = self.inner.slots.lock().unwrap();
         let old_max_size = slots.max_size;
         slots.max_size = max_size;
@@ -523,7 +551,11 @@ impl<M: Manager, W: From<Object<M>>> Pool<M, W> {
         &self,
         mut predicate: impl FnMut(&M::Type, Metrics) -> bool,
     ) -> RetainResult<M::Type> {
+        #[cfg(deadpool_verif)]
+        crate::verif::point("retain.enter");
         let mut removed = Vec::with_capacity(self.status().size);
+        #[cfg(deadpool_verif)]
+        crate::verif::point("retain.status");
         let mut guard = self.inner.slots.lock().unwrap();
         let mut i = 0;
         // This code can be simplified once `Vec::extract_if` lands in stable Rust.
@@ -557,8 +589,14 @@ impl<M: Manager, W: From<Object<M>>> Pool<M, W> {
     ///
     /// This operation resizes the pool to 0.
     pub fn close(&self) {
+        #[cfg(deadpool_verif)]
+        crate::verif::point("close.enter");
         self.resize(0);
+        #[cfg(deadpool_verif)]
+        crate::verif::point("close.resized");
         self.inner.semaphore.close();
+        #[cfg(deadpool_verif)]
+        crate::verif::point("close.closed");
     }
 
     /// Indicates whether this [`Pool`] has been closed.
@@ -588,6 +626,32 @@ impl<M: Manager, W: From<Object<M>>> Pool<M, W> {
     #[must_use]
     pub fn manager(&self) -> &M {
         &self.inner.manager
+    }
+
+    /// Internal counters of this [`Pool`] (verification builds only).
+    #[cfg(deadpool_verif)]
+    #[doc(hidden)]
+    #[must_use]
+    pub fn verif_snapshot(&self) -> crate::verif::ManagedSnapshot {
+        let slots = self.inner.slots.lock().unwrap();
+        crate::verif::ManagedSnapshot {
+            permits: self.inner.semaphore.available_permits(),
+            size: slots.size,
+            max_size: slots.max_size,
+            idle: slots.vec.len(),
+            users: self.inner.users.load(Ordering::Relaxed),
+            closed: self.inner.semaphore.is_closed(),
+        }
+    }
+
+    /// Visits the idle objects in queue order (verification builds only).
+    #[cfg(deadpool_verif)]
+    #[doc(hidden)]
+    pub fn verif_idle(&self, mut f: impl FnMut(&M::Type, &Metrics)) {
+        let slots = self.inner.slots.lock().unwrap();
+        for inner in slots.vec.iter() {
+            f(&inner.obj, &inner.metrics);
+        }
     }
 }
 
@@ -632,28 +696,50 @@ where
 
 impl<M: Manager> PoolInner<M> {
     fn return_object(&self, mut inner: ObjectInner<M>) {
+        #[cfg(deadpool_verif)]
+        crate::verif::point("ret.enter");
         let _ = self.users.fetch_sub(1, Ordering::Relaxed);
+        #[cfg(deadpool_verif)]
+        crate::verif::point("ret.users");
         let mut slots = self.slots.lock().unwrap();
         if slots.size <= slots.max_size {
             slots.vec.push_back(inner);
             drop(slots);
+            #[cfg(deadpool_verif)]
+            crate::verif::point("ret.keep.unlocked");
             self.semaphore.add_permits(1);
+            #[cfg(deadpool_verif)]
+            crate::verif::point("ret.keep.permit");
         } else {
             slots.size -= 1;
             drop(slots);
+            #[cfg(deadpool_verif)]
+            crate::verif::point("ret.discard.unlocked");
             self.manager.detach(&mut inner.obj);
+            #[cfg(deadpool_verif)]
+            crate::verif::point("ret.discard.detached");
         }
     }
     fn detach_object(&self, obj: &mut M::Type) {
+        #[cfg(deadpool_verif)]
+        crate::verif::point("det.enter");
         let _ = self.users.fetch_sub(1, Ordering::Relaxed);
+        #[cfg(deadpool_verif)]
+        crate::verif::point("det.users");
         let mut slots = self.slots.lock().unwrap();
         let add_permits = slots.size <= slots.max_size;
         slots.size -= 1;
         drop(slots);
+        #[cfg(deadpool_verif)]
+        crate::verif::point("det.unlocked");
         if add_permits {
             self.semaphore.add_permits(1);
         }
+        #[cfg(deadpool_verif)]
+        crate::verif::point("det.permit");
         self.manager.detach(obj);
+        #[cfg(deadpool_verif)]
+        crate::verif::point("det.detached");
     }
 }
 
